@@ -32,6 +32,9 @@ ASSUMPTIONS = [
     "(type, RequestId), not by arrival position, so independent streams may interleave freely; a frame no event accounts for is reported "
     "(C10:harness-unattributed-frame). Not modelled: CheckClient racing with a concurrent link loss, the 2 s arbiterWaiter delay (the harness "
     "wakes the manager instead of waiting), idle-link pooling of text connections, will commands (forwarded at Close)",
+    "every fourth case is `strict`: the proxy holds the leader's frames back 20 ms, so no answer can overtake Write's bookkeeping there — an answer "
+    "that leaves the command as the link's latest in such a case is reported (C10:answer-did-not-clear-latest), not excused as the race; a case "
+    "that does not finish within 90 s (node stuck) ends the run with C10:case-hung",
     "a first short text command that the node's own engine refuses with STATE_ERROR is within the statement (refuse or forward): counted as "
     "observation C10:refused-first-text-command, not a monitor failure; C10:no-reply-after-link-loss is an observation (VERIF_TRANS_STRICT off)",
     "C10F_one_reply is proved under OkRun: the client does not reuse a RequestId on a connection; the leader answers a forwarded LOCK/UNLOCK at "
@@ -114,11 +117,13 @@ def run_forward(ctx, prefixes=None):
                                "detail": f"{len(dis)} of the scripts disagree; first: {first_divergence(d[1], d[2], d[3])} ops={d[1][:1500]}"})
             ctx.cov.setdefault("disagreements", []).append({"op": d[1], "impl": d[2], "model": d[3]})
     ctx.cov["rule_forward"] = (
-        "seeded scripts against a real leader + a real non-leader node in one process (recording proxy on the link): 13 script families "
+        "seeded scripts against a real leader + a real non-leader node in one process (recording proxy on the link): 16 script families "
         "(binary / text basics incl. value frames, PUSH, SET; every way of having no link: states init/config/vote/close, no address, dead address; "
         "link cut with 0–3 requests queued at the leader; waiters granted in turn; role change follower→leader→follower on one connection and "
         "connections accepted while leader; INIT first / late / re-sent, CALL LIST_LOCK; concurrent-check LOCK against the node's own table; "
-        "session resumption after link loss; first text command within the first 64-byte read) + random walks over all of them on up to 3 "
+        "session resumption after link loss; first text command within the first 64-byte read; will commands registered and forwarded at the close "
+        "over the existing / a re-opened link or dropped without one, binary and text; several requests in ONE write = one read on the server; text "
+        "connections coming and going so that links move through the idle pool) + random walks over all of them on up to 3 "
         "connections; every forwarded LOCK/UNLOCK is replayed by an oracle connection directly on the leader (twin key) and the results compared "
         "field by field; distinct_nontrivial = distinct scripts with at least one relayed result")
 
